@@ -115,10 +115,11 @@ def resultElems : Result → List Elem
   | .same p => p.elems
   | .merged _ es => es
 
-def fmtResult : Option Result → String
+/-- `tails`: the end-only objects of the merged part (their ends are time points of it) -/
+def fmtResult (tails : List Elem) : Option Result → String
   | none => "err"
   | some (.same p) => "same " ++ fmtNat p.pid
-  | some (.merged L es) => fmtTuple [fmtNat L, fmtList fmtElem es, fmtList fmtNat (points es)]
+  | some (.merged L es) => fmtTuple [fmtNat L, fmtList fmtElem es, fmtList fmtNat (pointsWith es tails)]
 
 def handle (ts : List String) : String :=
   match ts with
@@ -143,7 +144,7 @@ def handle (ts : List String) : String :=
           | none => "err"
       | "load" =>
         match a with
-        | .plain sh => fmtResult (loadScoreAsPart sh)
+        | .plain sh => fmtResult (mergedTails .voice parts) (loadScoreAsPart sh)
         | _ => "bad-request"
       | _ =>
         match parseMode mode with
@@ -153,11 +154,11 @@ def handle (ts : List String) : String :=
           | none => "err"
           | some r =>
             match op with
-            | "merge" => fmtResult (some r)
+            | "merge" => fmtResult (mergedTails m parts) (some r)
             | "quarters" =>
               match r with
               | .same _ => "same"
-              | .merged L es => fmtList (fun _ => fmtNat L) (points es)
+              | .merged L es => fmtList (fun _ => fmtNat L) (pointsWith es (mergedTails m parts))
             | "rows" => fmtList fmtRow ((rows (resultElems r)).mergeSort rowLe)
             | "dangling" =>
               match r with
